@@ -118,17 +118,42 @@ def evaluate(scn, res):
             foreign = [key for key, (chunk, _) in all_chunks.items() if (key[:2] != (tid, i) or key[2] not in js) and chunk and chunk in text]
             chk(not foreign, "capture_isolated", f"thread {tid} op {i}: capture contains output of {foreign}")
 
-    # ---- record_order_eq_file_order
+    # ---- record_order_eq_file_order / exports_partition_the_record
     if scn.record:
         exp = res.export
         if chk(isinstance(exp, str) and not exp.startswith("err:"), "record_order", f"export_text failed: {exp!r}"):
+            stripped = re.sub(r"\x1b\[[0-9;?]*[A-Za-z]|\r", "", file_text)
+            # walk the exports in the order of their critical sections (event `cr` = the export reads the record)
+            nth = {}
+            cleared = ""
+            for tid, kind, _p in res.events:
+                if kind != "cr":
+                    continue
+                k = nth.get(tid, 0)
+                nth[tid] = k + 1
+                if k >= len(res.exports[tid]):
+                    continue
+                clear, mode, text = res.exports[tid][k]
+                if scn.kind == "none":
+                    chk(stripped[len(cleared):].startswith(text), "exports_partition_the_record",
+                        f"export {k} of thread {tid} returned {text!r}, which is not what the file holds after the {len(cleared)} characters "
+                        f"already handed out by clearing exports: {stripped[len(cleared):]!r}")
+                if clear:
+                    cleared += text
+            total = cleared + exp
+
             def order(text):
                 found = [(text.find(c), key) for key, (c, cap) in all_chunks.items() if not cap and c and c in text]
                 return [k for _, k in sorted(found)]
-            chk(order(exp) == order(file_text), "record_order", f"prints in export_text {order(exp)} vs in the file {order(file_text)}")
+            chk(order(total) == order(file_text), "exports_partition_the_record",
+                f"prints in the clearing exports + final record {order(total)} vs in the file {order(file_text)}")
+            for key, (c, cap) in all_chunks.items():
+                if not cap and c:
+                    chk(total.count(c) == file_text.count(c), "exports_partition_the_record",
+                        f"print {key} occurs {file_text.count(c)}x in the file but {total.count(c)}x in the clearing exports + final record")
             if scn.kind != "progress":
-                stripped = re.sub(r"\x1b\[[0-9;?]*[A-Za-z]|\r", "", file_text)
-                chk(stripped == exp, "record_order", f"export_text {exp!r} differs from the file without its control sequences {stripped!r}")
+                chk(stripped == total, "exports_partition_the_record",
+                    f"clearing exports + final record {total!r} differ from the file without its control sequences {stripped!r}")
 
     # ---- start / stop are idempotent under races: one hook per display, pushed once, popped once
     if scn.kind != "none":
@@ -280,6 +305,10 @@ def fixed_scenarios():
     out.append(("plain-nested", LC.Scn("none", 30, 6, True, False, "ellipsis", [],
                                        [[("N", ([mk(0, 0, 0)], "seg"), ([mk(0, 0, 1)], "str"), ([mk(0, 0, 2)], "log")), P(0, 1)],
                                         [("K", [([mk(1, 0)], "seg")]), ("N", ([mk(1, 1, 0)], "log"), ([mk(1, 1, 1)], "seg"), ([mk(1, 1, 2)], "seg"))]]), True))
+    out.append(("plain-export", LC.Scn("none", 30, 6, True, False, "ellipsis", [],
+                                       [[P(0, 0), P(0, 1, "log")], [("E", True, "t"), ("E", True, "h")], [P(2, 0, "str"), ("E", False, "s")]]), True))
+    out.append(("plain-export-2", LC.Scn("none", 30, 6, True, False, "ellipsis", [],
+                                         [[P(0, 0)], [("E", True, "h"), P(1, 1)], [("E", True, "t")]]), True))
     out.append(("plain-3", LC.Scn("none", 30, 6, False, False, "ellipsis", [], [[P(0, 0)], [P(1, 0, "log")], [("K", [([mk(2, 0)], "seg")]), P(2, 1)]]), True))
     # live, constant height, started and refreshed before the threads run, stopped after them
     out.append(("live-const", LC.Scn("live", 30, 8, True, False, "ellipsis", ["G1", "G2"],
@@ -329,7 +358,9 @@ def random_scenario(rng, stable=None):
             prog = []
             for i in range(rng.randint(1, 3)):
                 r = rng.random()
-                if r < 0.12:
+                if record and rng.random() < 0.2:
+                    prog.append(("E", rng.random() < 0.7, rng.choice("tsh")))
+                elif r < 0.12:
                     prog.append(("N",) + tuple(([mk(t, i, j)], rng.choice(hows)) for j in range(3)))
                 elif r < 0.35:
                     prog.append(("K", [([mk(t, i, j)], rng.choice(hows)) for j in range(rng.randint(0, 2))]))
@@ -506,7 +537,7 @@ def run(ctx):
     quick = ctx.quick
     fixed = fixed_scenarios()
     bound = 2 if quick else 3   # quick: <= 1 complete, <= 2 capped; thorough: <= 2 complete, <= 3 capped
-    per_scn = 1200 if quick else 22000   # cap on the runs per fixed scenario (spread over the first-level subtrees)
+    per_scn = 1200 if quick else 18000   # cap on the runs per fixed scenario (spread over the first-level subtrees)
     n_rand_tasks = 32 if quick else 256
     rand = [(ctx.rng.getrandbits(48), 30 if quick else 150, False) for _ in range(n_rand_tasks)]
     line = [(ctx.rng.getrandbits(48), 3 if quick else 15, True) for _ in range(16 if quick else 96)]
@@ -582,7 +613,11 @@ MANIFEST = {
     "under random-walk / PCT schedulers and line-granularity runs; the theorems' executable statements are evaluated on the real "
     "output of every run (one write call per print, capture contents, export order, lock held at every write, no deadlock / "
     "exception, terminal replay of the file).",
-    "note": "Start/stop races: several threads may call start()/stop() of a Live or Progress at once (fixed + random scenarios); direct "
+    "note": "Exports: threads may call export_text / export_html (clear or not) at any time; model: read and clear inside one "
+    "critical section of the record lock; theorems exports_partition_the_record (clearing exports in critical-section order + final "
+    "record = file, in file order, for every schedule) and export_reads_a_stable_record; direct evaluation walks the real exports in the "
+    "order of their record reads and checks the partition against the file (yield points at the record-lock operations, at the read "
+    "loop and at the `del`).  Start/stop races: several threads may call start()/stop() of a Live or Progress at once (fixed + random scenarios); direct "
     "evaluation: hook stack depth <= 1 at all times, cursor hidden once, sys.stdout/stderr wrapped once, after stop depth 0 / cursor "
     "visible / a print draws no frame.  Line probes preempt a printing thread at every line of live_render.py / live.py.  Variant flag "
     "stopTailUnlocked (1 = what /repo does, now as in rich 9.10.0 as found): Progress.stop erases / resets _shape after releasing its lock "
